@@ -473,6 +473,9 @@ func generatedInput(c *Ctx, l *core.Lane) (data []byte, name string, fmap []gen.
 		if y := c.L("gen:y"); y.Chance(1, 3) {
 			o.Top64 = 1 + y.Intn(7)
 		}
+		if y := c.L("gen:y"); y.Chance(1, 4) {
+			o.CTBO = 1 + y.Intn(15)
+		}
 		cr := gen.DrawCR3(l, o)
 		return cr.Bytes, "gen:CR3+XMP+PRVW", cr.Map
 	default:
@@ -505,7 +508,7 @@ func generatedInput(c *Ctx, l *core.Lane) (data []byte, name string, fmap []gen.
 			}
 			return h.Bytes, "gen:HEIF", fmap
 		}
-		em := gen.Embed(l, kind, parts, l.Bool())
+		em := gen.EmbedX(l, c.L("emb:x"), kind, parts, l.Bool())
 		fmap = append(fmap, em.Map...)
 		if len(em.Parts) == 1 && em.Parts[0].Start >= 0 {
 			for _, m := range emap {
